@@ -1,6 +1,7 @@
 package main
 
 import (
+	"os"
 	"fmt"
 	"go/token"
 	"go/types"
@@ -518,8 +519,28 @@ func (fr *Frame) appendVals(st *State, s, t Val, sort Sort) Val {
 	if label != "fresh" && !strings.HasPrefix(label, "spare:") {
 		label = "spare:" + label
 	}
+	if os.Getenv("JDVC_DEBUG_SPARE") != "" && strings.HasPrefix(label, "spare:") {
+		fmt.Fprintf(os.Stderr, "SPARE at %s: root %s#%d label=%s elemOwn=%s\n", e.posStr(e.curPos), s.R.Name, s.R.ID, s.R.Label, elemOwn(s.R))
+	}
+	if s.SubOf {
+		// append(x[:k], ...) writes into x's own elements beyond k (in place while capacity lasts):
+		// a write to x's storage for the frame check, and those elements become unknown
+		if e.prov != nil {
+			e.prov.write(e, s.R, e.curPos, "append to a sub-slice (overwrites the elements after it)")
+		}
+		old := st.mem[s.R]
+		hv := e.fresh("subapp", old.Sort)
+		lim := Arith("+", s.Off, s.Len)
+		e.assume(T(SBool, "(forall ((k Int)) (! (=> (< k %s) (= (select %s k) (select %s k))) :pattern ((select %s k))))", lim.S, hv.S, old.S, hv.S))
+		st.mem[s.R] = hv
+	}
 	r := e.newRoot("app", 1, d.Elem, label)
 	r.ElemLabel = joinLabel(plainLabel(elemLabel(s.R)), plainLabel(elemLabel(t.R)))
+	r.ElemOwn = joinLabel(elemOwn(s.R), elemOwn(t.R))
+	if r.ElemOwn == label || plainLabel(r.ElemOwn) == plainLabel(label) {
+		// nested storage defaults to the provenance of the elements' containers, not of this append
+		r.ElemOwn = joinLabel(stripSelf(elemOwn(s.R), s.R.Label), stripSelf(elemOwn(t.R), t.R.Label))
+	}
 	if e.binder > 0 {
 		e.fail("append under quantifier")
 	}
@@ -667,4 +688,13 @@ func (fr *Frame) external(st *State, pc Term, callee *ssa.Function, args []Val, 
 	}
 	e.note("assumed: external %s does not panic; result unconstrained", name)
 	return e.freshVal(st, "ext_"+callee.Name(), resT, "call", pc)
+}
+
+// stripSelf removes from an element-storage label the components that only stem from the
+// container's own label (the default when nothing was stored).
+func stripSelf(elem, self string) string {
+	if elem == self {
+		return "fresh"
+	}
+	return elem
 }
